@@ -80,7 +80,7 @@ type Case struct {
 	Obs   [][2]int `json:"obs"`
 	Err   *int     `json:"err"`
 	After [][]int  `json:"after"`
-	Post  [][3]int `json:"post"` // Next() again after false: [-1,0,0] panic, [0,0,0] false, [1,k,v] true
+	Post  [][3]int `json:"post"` // Next() again after false: [-1,0,0] panic, [0,0,0] false, [1,k,v] true; after a ForEach that returned an error: [2,k,v] where the iterator stands
 	Panic bool     `json:"panic"`
 	Why   string   `json:"why,omitempty"`
 	Gen   string   `json:"gen,omitempty"`
@@ -427,6 +427,10 @@ func run(t *Node, m Mode) (c Case) {
 			}
 		} else {
 			err = seq.ForEach(it, func(v int) error { return callback(0, v) })
+			if err != nil {
+				// ForEach STOPS at the first error: the iterator still stands on the element that failed
+				c.Post = append(c.Post, [3]int{2, 0, it.Value()})
+			}
 		}
 	} else {
 		it := buildP(t, env{0, 0})
@@ -447,6 +451,9 @@ func run(t *Node, m Mode) (c Case) {
 			}
 		} else {
 			err = pair.ForEach(it, callback)
+			if err != nil {
+				c.Post = append(c.Post, [3]int{2, it.Key(), it.Value()})
+			}
 		}
 	}
 	if err != nil {
